@@ -658,6 +658,7 @@ func TestC15Stress(t *testing.T) {
 		rounds = 4000
 	}
 	rng := rand.New(rand.NewSource(vh.Seed()))
+	stuck := 0
 	for i := 0; i < rounds; i++ {
 		capacity := 1 + rng.Intn(3)
 		r := newRun(out, capacity)
@@ -703,7 +704,7 @@ func TestC15Stress(t *testing.T) {
 			r.close(r.id())
 			select {
 			case <-done:
-			case <-time.After(2 * stuckAfter):
+			case <-time.After(stuckAfter):
 			}
 		}
 		out.Emit(vh.M{"e": "quiet", "blocked": r.blocked()})
@@ -711,8 +712,11 @@ func TestC15Stress(t *testing.T) {
 			f()
 		}
 		if len(r.blocked()) > 0 {
-			// leave the stuck goroutines behind; the trace will be rejected by TLC
-			continue
+			// leave the stuck goroutines behind; the trace will be rejected by TLC. Three witnesses are enough
+			// (each costs stuckAfter of real time).
+			if stuck++; stuck >= 3 {
+				break
+			}
 		}
 	}
 }
